@@ -116,7 +116,71 @@ def gen_bind(rng):
                 pos=rng.choice([None, '1,2', 'z']), third=rng.choice(['s', 't u']))
 
 
+def ref_group(text, o, c):
+    """TeX's rule for a delimited optional argument over a character string (every character one token; { } are groups):
+    returns (argument text or None, rest)."""
+    if not text.startswith(o):
+        return None, text
+    level, bl, k = 1, 0, 1
+    while k < len(text):
+        ch = text[k]
+        if ch == '{':
+            bl += 1
+        elif ch == '}':
+            bl -= 1
+        elif bl > 0:
+            pass
+        elif ch == o:
+            level += 1
+        elif ch == c:
+            level -= 1
+            if level == 0:
+                return text[1:k], text[k + 1:]
+        k += 1
+    return text[1:], ''
+
+
+def check_group(w):
+    text, chars = w['text'], w['chars']
+    t = fresh(text)
+    toks, src = t.readGrouping(chars)
+    got = None if toks is None else ''.join(str(x) for x in toks)
+    r = rest(t)
+    exp, exp_rest = ref_group(text, chars[0], chars[1])
+    return (got == exp and r == exp_rest), 'readGrouping(%r) on %r took %r leaving %r; the delimiter rule gives %r leaving %r' % (chars, text, got, r, exp, exp_rest)
+
+
+def gen_group(rng):
+    chars = rng.choice(['[]', '()', '<>'])
+    alphabet = [chars[0], chars[1], '{', '}', 'a', 'b']
+    # balanced braces: generate then repair
+    body = ''.join(rng.choice(alphabet) for _ in range(rng.randrange(0, 10)))
+    depth, out = 0, ''
+    for ch in body:
+        if ch == '}' and depth == 0:
+            continue
+        depth += (ch == '{') - (ch == '}')
+        out += ch
+    out += '}' * depth
+    return dict(text=(chars[0] if rng.random() < 0.85 else '') + out + chars[1] + 'REST', chars=chars)
+
+
+def small_group():
+    import itertools
+    for n in range(0, 6):
+        for body in itertools.product('[]{}a', repeat=n):
+            s, depth, ok = ''.join(body), 0, True
+            for ch in s:
+                depth += (ch == '{') - (ch == '}')
+                if depth < 0:
+                    ok = False
+                    break
+            if ok and depth == 0:
+                yield dict(text='[' + s + ']R', chars='[]')
+
+
 CONTRACTS = {
+    'TeX.readGrouping/spec': dict(check=check_group, gen=gen_group, small=small_group),
     'TeX.readInteger': dict(check=check_int, gen=gen_int),
     'TeX.readOptionalSigns': dict(check=check_int, gen=gen_int),
     'TeX.readDimen': dict(check=check_dimen, gen=gen_dimen),
